@@ -7,6 +7,7 @@ package main
 
 import (
 	"fmt"
+	"go/constant"
 	"go/token"
 	"go/types"
 	"math/big"
@@ -694,4 +695,155 @@ func layerValueOffsets(ctx *Ctx, fn *ssa.Function, values *Agg, dim int) ([][]in
 		}
 	}
 	return out, nil
+}
+
+// everyCellFeedsKernel: in a uniform renderer every cell of the lattice goes through the kernel
+// and the kernel's output goes to the writer. The uniform renderers promise a closed surface for
+// any function whose zero set is inside the box - they look at signs only - so a cell may be
+// skipped only on the signs of its corner values, never on a magnitude (a magnitude test trusts
+// the function to be a distance bound, which the uniform renderers do not require). Decided on
+// the CFG: inside the innermost loop around the kernel call, every branch that is not dominated
+// by the call (and is not the loop's own header test) must be a comparison with the constant 0
+// or a boolean combination of such; and the writer call consuming the kernel's result must be in
+// the same iteration on every path after the kernel call.
+func everyCellFeedsKernel(ctx *Ctx, r *Report, rule string, fn *ssa.Function, kernel string) {
+	var kcall *ssa.Call
+	allInstrs(fn, func(_ *ssa.BasicBlock, ins ssa.Instruction) {
+		if c, ok := ins.(*ssa.Call); ok {
+			if g := c.Call.StaticCallee(); g != nil && g.Name() == kernel {
+				kcall = c
+			}
+		}
+	})
+	who := fn.Name()
+	if kcall == nil {
+		r.undecided(rule, who, fn.Pos(), "no call of "+kernel)
+		return
+	}
+	ld := innermostLoop(fn, kcall.Block())
+	if ld == nil {
+		r.undecided(rule, who, kcall.Pos(), "the kernel call is not inside a loop")
+		return
+	}
+	var signOnly func(v ssa.Value, seen map[ssa.Value]bool) bool
+	isZero := func(v ssa.Value) bool {
+		c, ok := v.(*ssa.Const)
+		if !ok || c.Value == nil {
+			return false
+		}
+		switch c.Value.Kind() {
+		case constant.Int, constant.Float:
+			return constant.Sign(c.Value) == 0
+		}
+		return false
+	}
+	signOnly = func(v ssa.Value, seen map[ssa.Value]bool) bool {
+		if seen[v] {
+			return true
+		}
+		seen[v] = true
+		switch x := v.(type) {
+		case *ssa.Const:
+			return true
+		case *ssa.BinOp:
+			switch x.Op {
+			case token.LSS, token.LEQ, token.GTR, token.GEQ, token.EQL, token.NEQ:
+				if isZero(x.X) || isZero(x.Y) {
+					return true
+				}
+				if bt, ok := x.X.Type().Underlying().(*types.Basic); ok && bt.Info()&types.IsBoolean != 0 {
+					return signOnly(x.X, seen) && signOnly(x.Y, seen)
+				}
+			}
+			return false
+		case *ssa.UnOp:
+			if x.Op == token.NOT {
+				return signOnly(x.X, seen)
+			}
+			return false
+		case *ssa.Phi:
+			for _, e := range x.Edges {
+				if !signOnly(e, seen) {
+					return false
+				}
+			}
+			return true
+		}
+		return false
+	}
+	bad := ""
+	nBranches := 0
+	kb := kcall.Block()
+	for _, x := range ld.order {
+		if x == ld.header || kb.Dominates(x) {
+			continue
+		}
+		ifi, ok := x.Instrs[len(x.Instrs)-1].(*ssa.If)
+		if !ok {
+			continue
+		}
+		nBranches++
+		if !signOnly(ifi.Cond, map[ssa.Value]bool{}) {
+			bad += fmt.Sprintf(" the branch at %s decides whether the cell reaches %s and is not a test of signs;", ctx.pos(branchPos(x, ifi)), kernel)
+		}
+	}
+	if !kb.Dominates(kb) { // unreachable
+		bad += " unreachable kernel call;"
+	}
+	// the kernel result is written in the same iteration
+	var wr ssa.Instruction
+	for _, ref := range *kcall.Referrers() {
+		if c, ok := ref.(*ssa.Call); ok && c.Call.IsInvoke() && c.Call.Method.Name() == "Write" {
+			wr = c
+		}
+	}
+	if wr == nil {
+		bad += " the kernel's result is not passed to the writer directly;"
+	} else if innermostLoop(fn, wr.Block()) != ld && innermostLoop(fn, wr.Block()) == nil {
+		bad += " the writer call is outside the cell loop;"
+	} else {
+		// no branch between the kernel call and the write that can skip the write
+		if !wr.Block().Dominates(wr.Block()) || !(wr.Block() == kb || postDominatedWithin(ld, kb, wr.Block())) {
+			bad += " a path from the kernel call to the next cell misses the writer;"
+		}
+	}
+	r.check(rule, who+"|every-cell-reaches-"+kernel+"-and-the-writer", kcall.Pos(), bad == "", fmt.Sprintf("%d branches inside the cell loop before the kernel call, all sign tests;%s", nBranches, bad))
+}
+
+// branchPos: a usable position for an If (its condition's, or the first positioned instruction's).
+func branchPos(b *ssa.BasicBlock, ifi *ssa.If) token.Pos {
+	if p := ifi.Cond.Pos(); p.IsValid() {
+		return p
+	}
+	for i := len(b.Instrs) - 1; i >= 0; i-- {
+		if p := b.Instrs[i].Pos(); p.IsValid() {
+			return p
+		}
+	}
+	return token.NoPos
+}
+
+// postDominatedWithin: every path inside the loop from block a to a latch or exit passes through b.
+func postDominatedWithin(ld *loopDesc, a, b *ssa.BasicBlock) bool {
+	seen := map[*ssa.BasicBlock]bool{}
+	var walk func(x *ssa.BasicBlock) bool
+	walk = func(x *ssa.BasicBlock) bool {
+		if x == b {
+			return true
+		}
+		if seen[x] {
+			return true
+		}
+		seen[x] = true
+		for _, su := range x.Succs {
+			if !ld.in[su] || su == ld.header {
+				return false
+			}
+			if !walk(su) {
+				return false
+			}
+		}
+		return len(x.Succs) > 0
+	}
+	return walk(a)
 }
